@@ -418,6 +418,10 @@ class Wcs(Relation):
                                  lambda t: dict(t[0], sip=t[1]))),
             'pts': st.lists(st.tuples(st.floats(-300, 300), st.floats(-300, 300)),
                             min_size=4, max_size=8),
+            # pixel indices as users hold them: unsigned arrays, with the
+            # first pixel (index 0) among them where the image allows it
+            'ptype': st.sampled_from(['float', 'float', 'float', 'uint8',
+                                      'uint16']),
         })
 
     def check(self, sp, ctx):
@@ -433,6 +437,18 @@ class Wcs(Relation):
                 lim = min(lim, 120.0)
         xs = np.array([cr[0] - 1 + max(-lim, min(lim, t[0])) for t in sp['pts']])
         ys = np.array([cr[1] - 1 + max(-lim, min(lim, t[1])) for t in sp['pts']])
+        pt = sp.get('ptype', 'float')
+        if pt != 'float' and sp['layout'] != 'scalar':
+            top = 255.0 if pt == 'uint8' else 65535.0
+            xs, ys = np.clip(np.round(xs), 0, top), np.clip(np.round(ys), 0, top)
+            if cr[0] - 1 - lim <= 0:
+                xs[0] = 0
+            if cr[1] - 1 - lim <= 0:
+                ys[-1] = 0
+            xs, ys = xs.astype(pt), ys.astype(pt)
+            ctx.label('wcs:' + pt, 'wcs:index 0' if (xs.min() == 0
+                                                    or ys.min() == 0)
+                      else 'wcs:no index 0')
         if sp['layout'] == 'scalar':
             p = PixCoord(float(xs[0]), float(ys[0]))
         elif sp['layout'] == '1d':
@@ -454,8 +470,8 @@ class Wcs(Relation):
         ctx.check(np.shape(back.x) == np.shape(p.x),
                   'wcs | round trip changes the shape',
                   f'{np.shape(back.x)} vs {np.shape(p.x)}')
-        dx = np.abs(np.asarray(back.x) - np.asarray(p.x))
-        dy = np.abs(np.asarray(back.y) - np.asarray(p.y))
+        dx = np.abs(np.asarray(back.x) - np.asarray(p.x, float))
+        dy = np.abs(np.asarray(back.y) - np.asarray(p.y, float))
         # with distortions mode='all' inverts the SIP polynomial iteratively
         # (astropy's own tolerance 1e-4 px)
         rt_tol = 2e-3 if (w.get('sip') and m == 'all') else 1e-6
@@ -465,7 +481,8 @@ class Wcs(Relation):
         if sp['layout'] == 'scalar':
             ctx.check(back.isscalar, 'wcs | scalar round trip gives an array')
         # origin convention: origin-1 coordinates are origin-0 plus one
-        sky0 = PixCoord(np.asarray(p.x) - o, np.asarray(p.y) - o).to_sky(
+        sky0 = PixCoord(np.asarray(p.x, float) - o,
+                        np.asarray(p.y, float) - o).to_sky(
             wcs, origin=0, mode=m)
         sep = sky.separation(sky0).arcsec
         scale_as = 3600.0 * (1.0 if w.get('example') else w['scale'])
